@@ -750,8 +750,74 @@ func extFuncName(f *ssa.Function) (pkg, full string) {
 // derivesOnlyFromField: v is a load of the given field location, or a parameter whose argument at every
 // static call site derives only from it, or !v / phi of such.
 func (m *Model) derivesOnlyFromField(v ssa.Value, loc string, depth int) bool {
-	if depth > 5 {
+	if depth > 7 {
 		return false
+	}
+	// every condition that decides whether block b runs derives only from the field
+	ctlOnlyField := func(b *ssa.BasicBlock) bool {
+		for _, d := range transitiveControlDeps(b) {
+			if !m.derivesOnlyFromField(d.If.Cond, loc, depth+1) {
+				return false
+			}
+		}
+		return true
+	}
+	switch x := v.(type) {
+	case *ssa.Convert:
+		return m.derivesOnlyFromField(x.X, loc, depth+1)
+	case *ssa.ChangeType:
+		return m.derivesOnlyFromField(x.X, loc, depth+1)
+	case *ssa.BinOp:
+		// comparison of a derived value with a constant (`choice == chooseRandom`)
+		if x.Op == token.EQL || x.Op == token.NEQ {
+			if _, isC := x.Y.(*ssa.Const); isC {
+				return m.derivesOnlyFromField(x.X, loc, depth+1)
+			}
+			if _, isC := x.X.(*ssa.Const); isC {
+				return m.derivesOnlyFromField(x.Y, loc, depth+1)
+			}
+		}
+		return false
+	case *ssa.Phi:
+		// a selection between constants (or derived values) made under conditions that derive only from the field
+		some := false
+		for i, e := range x.Edges {
+			if _, isC := e.(*ssa.Const); !isC && !m.derivesOnlyFromField(e, loc, depth+1) {
+				return false
+			}
+			if !ctlOnlyField(x.Block().Preds[i]) {
+				return false
+			}
+			if len(transitiveControlDeps(x.Block().Preds[i])) > 0 {
+				some = true
+			}
+		}
+		return some
+	case *ssa.Call:
+		// a helper of the module that maps the option to a constant (`nodeChoiceFor(params)`)
+		c := x.Call.StaticCallee()
+		if c == nil || !inModule(c) || len(c.Blocks) == 0 || c.Signature.Results().Len() != 1 {
+			return false
+		}
+		n, some := 0, false
+		okAll := true
+		eachInstr(c, func(in ssa.Instruction) {
+			ret, isRet := in.(*ssa.Return)
+			if !isRet || len(ret.Results) != 1 {
+				return
+			}
+			n++
+			if _, isC := ret.Results[0].(*ssa.Const); !isC && !m.derivesOnlyFromField(ret.Results[0], loc, depth+1) {
+				okAll = false
+			}
+			if !ctlOnlyField(ret.Block()) {
+				okAll = false
+			}
+			if len(transitiveControlDeps(ret.Block())) > 0 {
+				some = true
+			}
+		})
+		return n > 0 && okAll && some
 	}
 	switch x := v.(type) {
 	case *ssa.Field:
